@@ -52,10 +52,11 @@ structure Facts (c : Ctx) (K : Prop) (Sup : Vtx → Prop) : Prop where
   reqs : K → ∀ k f, c.funcOf k = some f → (∃ u, c.g.hasEdge (.func k) u = true) →
     ∀ v ∈ f.input.values, v.lab.vertex ∈ c.g.outs (.func k)
 
-/-- state invariant: (V), (S) and "every remaining oracle item is good" -/
+/-- state invariant: (V), (S) and "every remaining oracle item is good" — the latter is needed only while an R6
+hop copies nothing (`c.hopCopies = false`, before the repair of finding F22) -/
 structure PInv (c : Ctx) (Sup : Vtx → Prop) (s : CallSt) : Prop where
   sinv : SInv c False Sup s
-  orc : ∀ it ∈ s.orc, ItemOK c.g it
+  orc : ∀ it ∈ s.orc, c.hopCopies = true ∨ ItemOK c.g it
 
 variable {c : Ctx} {K : Prop} {Sup : Vtx → Prop}
 
@@ -474,10 +475,11 @@ theorem walkFold_winv (gf : Facts c K Sup) (rec : Vtx → CallSt → Except RErr
 
 /-! ### walking all paths -/
 
-/-- a root-first real path that ends in a value or argument vertex and not in `…, value, value, arg` -/
+/-- a root-first real path that ends in a value or argument vertex and — unless R6 hops copy — not in
+`…, value, value, arg` -/
 def GoodP (c : Ctx) (p : List Vtx) : Prop :=
   ∃ rest, p = .root :: rest ∧ rest ≠ [] ∧ Chain c.g .root rest ∧
-    (∀ l, rest.getLast? = some l → (l.isValue = true ∨ l.isArg = true)) ∧ PathGood p
+    (∀ l, rest.getLast? = some l → (l.isValue = true ∨ l.isArg = true)) ∧ (c.hopCopies = true ∨ PathGood p)
 
 theorem walkPaths_spec (gf : Facts c K Sup) (rec : Vtx → CallSt → Except RErr ArgMap × CallSt)
     (hrec : RecOK c K Sup rec) (paths : List (List Vtx)) (hp : ∀ p ∈ paths, GoodP c p) (am : ArgMap)
@@ -533,10 +535,12 @@ theorem walkPaths_spec (gf : Facts c K Sup) (rec : Vtx → CallSt → Except REr
         · cases l <;> simp [Vtx.isArg] at hv
           rename_i t u
           obtain ⟨hfe, hd⟩ := hP
-          rcases hd with hd | ⟨_, pre, a, b, hd, ha, hb, _⟩
+          rcases hd with hd | ⟨hcf, pre, a, b, hd, ha, hb, _⟩
           · obtain ⟨x, hx⟩ := Option.isSome_iff_exists.1 hd
             exact ⟨x, by rw [hfe, hx], hS.sinv.typed _ _ hx⟩
-          · exact (hpg pre a b _ hd ha hb rfl).elim
+          · rcases hpg with hh | hpg
+            · rw [hh] at hcf; cases hcf
+            · exact (hpg pre a b _ hd ha hb rfl).elim
       obtain ⟨x, hfx, htx⟩ := hfin
       rw [hlast, hl, hfx]
       dsimp only
@@ -583,7 +587,8 @@ theorem planOne_pinv (target : Vtx) (reaching : List Vtx) (trk : Bool) (ps : Pla
 
 /-- a valid path to a value / argument requirement is root-first and real -/
 theorem goodP_of_valid (cur : Vtx) (p : List Vtx)
-    (hcur : cur.isValue = true ∨ cur.isArg = true) (h : validPath c.g cur p = true) (hpg : PathGood p) :
+    (hcur : cur.isValue = true ∨ cur.isArg = true) (h : validPath c.g cur p = true)
+    (hpg : c.hopCopies = true ∨ PathGood p) :
     GoodP c p ∧ p.getLast? = some cur := by
   simp only [validPath, Bool.and_eq_true, beq_iff_eq] at h
   obtain ⟨⟨⟨_, hhead⟩, hlast⟩, hpath⟩ := h
@@ -692,7 +697,7 @@ theorem reach_spec (gf : Facts c K Sup) (n : Nat) :
       dsimp only
       have hs2 : PInv c Sup { s with orc := orcRest } :=
         ⟨sinv_of_store hs.sinv rfl, fun it hit => hs.orc it (by rw [horc]; exact List.mem_cons_of_mem _ hit)⟩
-      have hitem : ItemOK c.g item := hs.orc item (by rw [horc]; exact List.mem_cons_self)
+      have hitem : c.hopCopies = true ∨ ItemOK c.g item := hs.orc item (by rw [horc]; exact List.mem_cons_self)
       split
       · exact ⟨fun e h => by cases h; exact nb _, fun am h => by cases h⟩
       · split
@@ -724,7 +729,7 @@ theorem reach_spec (gf : Facts c K Sup) (n : Nat) :
                   obtain ⟨i, hi⟩ := List.mem_iff_getElem?.1 hcp
                   rw [List.getElem?_zip_eq_some] at hi
                   exact goodP_of_valid cp.1 cp.2 (hmiss _ (hsame'.1.1 _ (List.of_mem_zip hcp).1)) hv
-                    (hitem i cp.1 cp.2 hi.1 hi.2 hv)
+                    (hitem.imp id (fun h => h i cp.1 cp.2 hi.1 hi.2 hv))
                 have hs3 : PInv c Sup ((item.missing.zip item.paths).foldl
                     (planOne (.func k) (.func k :: reaching) c.trackReaching false)
                     { s := { s with orc := orcRest }, unsat := [] }).s :=
